@@ -482,7 +482,11 @@ pub fn shrink_shape(s: &Shape) -> Vec<Shape> {
                 });
             }
         }
-        Shape::Literal { .. } | Shape::Pure(_) | Shape::PureWith(_) | Shape::Fail(_) => {}
+        Shape::Literal { .. }
+        | Shape::Pure(_)
+        | Shape::PureWith(_)
+        | Shape::Fail(_)
+        | Shape::Battery(_) => {}
         Shape::Cmd {
             name,
             shorts,
@@ -585,6 +589,7 @@ pub fn shrink_opts(o: &Opts) -> Vec<Opts> {
     clear!(help_names, None);
     clear!(version_names, None);
     clear!(fallback_to_usage, false);
+    clear!(cargo, None);
     for r in shrink_shape(&o.root) {
         let mut x = o.clone();
         x.root = r;
